@@ -148,9 +148,11 @@ def _aggregates(ctx):
                 'free_capacity' in N.txt(node.ast.value):
             acc = node
     ctx.require(acc is not None and loops,
-                'accumulation over the children in %s' % down.qualname)
+                'accumulation over the children in %s' % down.qualname,
+                    rule='C02.1')
     loop = K.enclosing_for(graph, acc)
-    ctx.require(loop is not None, 'child loop of %s' % down.qualname)
+    ctx.require(loop is not None, 'child loop of %s' % down.qualname,
+        rule='C02.1')
     child = sorted(N.for_targets(loop))[0]
     accname = N.txt(acc.ast.targets[0])
     good = _is_max_of(acc.ast.value, accname, '%s.free_capacity' % child)
@@ -212,7 +214,7 @@ def _aggregates(ctx):
     graph = ctx.cfg(setter)
     sfacts = N.must_facts(graph, nz)
     sup = K.nodes_calling(graph, lambda c: K.is_meth(c, 'set_state'))
-    ctx.require(sup, 'base set_state call in Server.set_state')
+    ctx.require(sup, 'base set_state call in Server.set_state', rule='C02.1')
     statevar = setter.params()[1]
     calls_up = K.nodes_calling(graph, lambda c: K.is_meth(c, up.name))
     calls_dn = K.nodes_calling(graph, lambda c: K.is_meth(c, down.name))
@@ -343,7 +345,7 @@ def _aggregates(ctx):
     add = index.find_method(node_cls, 'add_node')
     rem_node = index.find_method(node_cls, 'remove_node')
     ctx.require(add is not None and rem_node is not None,
-                'Node.add_node / remove_node')
+                'Node.add_node / remove_node', rule='C02.1')
     child = add.params()[1]
     want_add = {
         'add_child_traits': child,
@@ -362,7 +364,7 @@ def _aggregates(ctx):
     badd = bucket.methods.get('add_node')
     brem = bucket.methods.get('remove_node')
     ctx.require(badd is not None and brem is not None,
-                'Bucket.add_node / remove_node')
+                'Bucket.add_node / remove_node', rule='C02.1')
     _must_call_all(ctx, badd, {
         'add_node': badd.params()[1],
         up.name: '%s.free_capacity' % badd.params()[1]},
@@ -399,7 +401,8 @@ def _shortcut(ctx, down, nz):
     recomputed the aggregate (passed the child loop) nor re-assigned it."""
     graph = ctx.cfg(down)
     prev = down.params()[1] if len(down.params()) > 1 else None
-    ctx.require(prev, 'previous-capacity parameter of %s' % down.qualname)
+    ctx.require(prev, 'previous-capacity parameter of %s' % down.qualname,
+        rule='C02.2')
     loops = [n for n in graph.nodes if n.kind == 'for']
     stores = [n for n in graph.nodes if any(
         N.txt(t) == 'self.free_capacity'
@@ -418,7 +421,7 @@ def _shortcut(ctx, down, nz):
         exits += [e.src for e in graph.exit.pred
                   if e.src in early and e.src.kind != 'return' and
                   e.kind != 'exc']
-    ctx.require(exits, 'shortcut exit in %s' % down.qualname)
+    ctx.require(exits, 'shortcut exit in %s' % down.qualname, rule='C02.2')
     for node in exits:
         ok = K.guarded_by_atoms(ctx, down, graph, node, sound, nz,
                                 follow_exc=False)
@@ -506,7 +509,8 @@ def _memo(ctx, nz):
                        'record written for a new key, or replaced only '
                        'under ALL(demand <= recorded), by the demand '
                        'itself')
-    ctx.require(count >= 2, 'memo decisions of the feasibility tracker')
+    ctx.require(count >= 2, 'memo decisions of the feasibility tracker',
+        rule='C02.4')
     # the memo is valid for one walk over one partition's queue: the shapes
     # it records do not carry the partition (an allocation's constraints are
     # frozen before its label is set), so "a smaller instance of this shape
@@ -539,7 +543,7 @@ def _memo(ctx, nz):
                    'walk itself, on every path (one memo per partition '
                    'queue, never one handed in)' % func.name,
                    construct='memo scope in %s' % func.name)
-    ctx.require(users, 'user of the feasibility memo in Cell')
+    ctx.require(users, 'user of the feasibility memo in Cell', rule='C02.4')
     return tracker
 
 
@@ -677,7 +681,7 @@ def _shape_complete(ctx, tracker):
             if func is not None:
                 preds.append(func)
     ctx.require(len(preds) >= 1, 'admission predicates called by the leaf '
-                                 'placement')
+                                 'placement', rule='C02.4')
     required = set()
     for func in preds:
         required |= _reads(index, func, func.params()[1], attr_cls, app_cls)
@@ -735,7 +739,8 @@ def _shape_complete(ctx, tracker):
     leaves = set(c for c in required
                  if not any(o != c and o[:len(c)] == c for o in required))
     ctx.require(len(leaves) >= 6, 'attributes read by the admission '
-                                  'predicates (found %s)' % sorted(leaves))
+                                  'predicates (found %s)' % sorted(leaves),
+                                      rule='C02.4')
     for chain in sorted(leaves):
         ok = chain in covered
         ctx.ob('C02.4', tracker.methods['feasible'], None, ok,
@@ -767,7 +772,7 @@ def _walk(ctx):
     body = K.loop_body_nodes(head)
     adv = [n for n, _c in K.nodes_calling(
         graph, lambda c: K.is_meth(c, 'next_node')) if n in body]
-    ctx.require(adv, 'strategy.next_node() in the walk')
+    ctx.require(adv, 'strategy.next_node() in the walk', rule='C02.5')
     exits = set(e.dst for e in K.loop_exit_edges(head))
     count = 0
     for node in body:
@@ -798,7 +803,8 @@ def _walk(ctx):
                    'a child that is not up is skipped by advancing to the '
                    'next child, not by leaving the walk',
                    path=K.describe(path) if path else None)
-    ctx.require(count >= 1, 'not-up branch in the walk of Bucket.put')
+    ctx.require(count >= 1, 'not-up branch in the walk of Bucket.put',
+        rule='C02.5')
     # before the walk the bucket gives up only on the admission predicate
     # (whose inputs are the maintained aggregates) or with no child at all
     def prewalk_ok(atom):
@@ -880,7 +886,8 @@ def _exact_fit(ctx, nz):
                if nonstrict and not strict else
                'exact fit is rejected or capacity not compared: %s' %
                sorted(N.show(f) for f in have if f.kind == 'vec'))
-    ctx.require(n_true >= 1, 'accepting return of the admission predicate')
+    ctx.require(n_true >= 1, 'accepting return of the admission predicate',
+        rule='C02.7')
     # the bucket-level predicate rejects only on the verified aggregates
     app = pred.params()[1]
 
